@@ -348,6 +348,56 @@ func c13Hostile(rc *RunCtx) *Violation {
 					plains = append(plains, append(pl, v...))
 				}
 			}
+			if s.D%3 != 0 {
+				// several TLVs in ONE authentic message: what an earlier TLV does to the conversation
+				// (disconnect wipes the session and the SMP machine, abort resets it, SMP steps move
+				// it) is met by a well-formed later TLV of the same message
+				smpTLV := func(typ byte, cnt int, q bool, empty bool) []byte {
+					v := refotr.PutInt(nil, uint32(cnt))
+					for i := 0; i < cnt; i++ {
+						if empty {
+							v = append(v, 0, 0, 0, 0)
+						} else {
+							v = refotr.PutMPI(v, big.NewInt(int64(2+i)))
+						}
+					}
+					if q {
+						v = append([]byte("q?\x00"), v...)
+					}
+					return append([]byte{0, typ, byte(len(v) >> 8), byte(len(v))}, v...)
+				}
+				atoms := [][]byte{
+					{0, 1, 0, 0},                    // disconnect
+					{0, 0, 0, 3, 0, 0, 0},           // padding
+					smpTLV(2, 6, false, s.D%2 == 0), // SMP1
+					smpTLV(7, 6, true, s.D%2 == 0),  // SMP1 with question
+					smpTLV(3, 11, false, s.D%2 == 0),
+					smpTLV(4, 8, false, s.D%2 == 0),
+					smpTLV(5, 3, false, s.D%2 == 0),
+					{0, 6, 0, 0},                       // abort
+					{0, 8, 0, 6, 0, 0, 0, 1, 'k', 'k'}, // extra key
+					{0xab, 0xcd, 0, 2, 1, 2},           // unknown type
+					{0, 1, 0, 2, 'x', 'y'},             // disconnect with a body
+				}
+				n := len(atoms)
+				var pl []byte
+				if s.C%2 == 1 {
+					pl = append(pl, "multi"...)
+				}
+				pl = append(pl, 0)
+				idx := []int{(s.C / 2) % n, (s.C / 2 / n) % n}
+				if t := (s.D / 3) % (n + 1); t < n {
+					idx = append(idx, t)
+				}
+				for _, i := range idx {
+					pl = append(pl, atoms[i]...)
+				}
+				d, err := m.Ref.BuildData(refotr.DataSpec{RawPlain: pl})
+				if err != nil {
+					return []byte("?OTR:AAMD."), "garbage"
+				}
+				return refotr.Armor(d.Raw()), fmt.Sprintf("authenticated-multi-tlv:%v", idx)
+			}
 			d, err := m.Ref.BuildData(refotr.DataSpec{RawPlain: plains[s.C%len(plains)]})
 			if err != nil {
 				return []byte("?OTR:AAMD."), "garbage"
